@@ -22,10 +22,16 @@ type Taint struct {
 	why     map[ssa.Value]ssa.Value
 }
 
-func isByteSliceish(t types.Type) bool {
+func isByteSliceish(t types.Type) bool { return sliceish(t, map[types.Type]bool{}, 0) }
+
+func sliceish(t types.Type, seen map[types.Type]bool, d int) bool {
 	if isErrorType(t) {
 		return false
 	}
+	if seen[t] || d > 12 {
+		return false
+	}
+	seen[t] = true
 	switch u := t.Underlying().(type) {
 	case *types.Basic:
 		return false
@@ -33,20 +39,20 @@ func isByteSliceish(t types.Type) bool {
 		return true
 	case *types.Struct:
 		for i := 0; i < u.NumFields(); i++ {
-			if isByteSliceish(u.Field(i).Type()) {
+			if sliceish(u.Field(i).Type(), seen, d+1) {
 				return true
 			}
 		}
 	case *types.Pointer:
-		return isByteSliceish(u.Elem())
+		return sliceish(u.Elem(), seen, d+1)
 	case *types.Tuple:
 		for i := 0; i < u.Len(); i++ {
-			if isByteSliceish(u.At(i).Type()) {
+			if sliceish(u.At(i).Type(), seen, d+1) {
 				return true
 			}
 		}
 	case *types.Array:
-		return isByteSliceish(u.Elem())
+		return sliceish(u.Elem(), seen, d+1)
 	case *types.Interface:
 		return true
 	case *types.Signature:
